@@ -383,10 +383,8 @@ def _crash(shard, mbs, reset, h0, c0, m1, m2, crash_at, *sched):
     sc2 = Scenario(broker, 1 if reset == 1 else 0, mbs, consumer="sync")
     try:
         sc2.start()
-        sc2.poll()
-        sc2.poll()
-        sc2.poll()
-        sc2.poll()
+        for _ in range(12):     # enough polls for every remaining message even with max_batch_size=1
+            sc2.poll()
         got = [o for b in sc2.processed for (_, p, o) in b]
         if committed != fk.OFFSET_INVALID:
             exp_start = committed
